@@ -112,9 +112,18 @@ func TestC01Rapid(t *testing.T) {
 			o.ElNames = xgen.ElNames2
 		}
 		shape := xgen.Shape(rt, &o)
+		unicodeNames := !prefixed && shape != "doc:many-attributes" && rapid.IntRange(0, 9).Draw(rt, "unicode-names") == 0
+		if unicodeNames {
+			o.ElNames = []string{"é", "中文", "имя"} // multi-byte names: the scanner counts bytes, the grammar counts characters
+			o.AtNames = []string{"ключ", "x"}
+		}
 		doc := xgen.Doc(rt, o)
 		ctx := xgen.Context(rt, doc, 4)
 		g := xgen.NewG(rt, doc)
+		g.AtNames = o.AtNames
+		if unicodeNames {
+			g.ElNames = o.ElNames
+		}
 		if prefixed {
 			g.ElNames = xgen.ElNames2
 			g.Prefixes = []string{"", "p", "q"}
